@@ -20,6 +20,7 @@ class Env:
         self.waits = 0
         self.inits = 0
         self.updates = []
+        self.free_during_wait = None
 
     def now_us(self):
         return self.t
@@ -32,6 +33,8 @@ class Env:
         return (7, 0)
 
     def notifier_update(self, h, t):
+        if h is None:
+            raise TypeError("updateNotifierAlarm(): incompatible function arguments (handle is None)")
         self.alarm = t
         self.updates.append(t)
 
@@ -42,7 +45,14 @@ class Env:
         self.cleaned += 1
 
     def notifier_wait(self, h):
+        if h is None:
+            raise TypeError("waitForNotifierAlarm(): incompatible function arguments (handle is None)")
         self.waits += 1
+        if self.free_during_wait is not None:
+            # another thread frees the notifier while this one is blocked: the HAL wakes the waiter (time 0)
+            nd, self.free_during_wait = self.free_during_wait, None
+            nd.free()
+            return 0
         a = self.alarm
         if a > self.t:
             self.t = a
@@ -87,6 +97,7 @@ def path(c, job):
             for t0 in (0, 5000000, 1234567):
                 env2 = Env.__new__(Env)
                 env2.c, env2.t, env2.alarm, env2.stopped, env2.cleaned, env2.waits, env2.inits, env2.updates = c, t0, None, 0, 0, 0, 0, []
+                env2.free_during_wait = None
                 wpilib.ENV = env2
                 nd = pd.NotifierDelay(P)
                 Pus = int(P * 1e6)
@@ -134,6 +145,23 @@ def path(c, job):
         b = c.integer(f"body{k}", 0, 10 ** 9)
         env.t = env.t + b
         before = env.t
+        if free_at == k and job.get("free_while_blocked"):
+            # free() arrives from another thread while wait() is blocked: wait() returns (no exception), later waits are no-ops
+            env.free_during_wait = nd
+            c.reach("freed-while-blocked")
+            try:
+                nd.wait()
+                ok = True
+            except Exception as e:
+                ok = False
+            w = env.waits
+            try:
+                nd.wait()
+            except Exception:
+                ok = False
+            c.prove("C16.free wait-returns-when-freed-while-blocked", ok and env.waits == w and env.stopped == 1 and env.cleaned == 1,
+                    info=dict(stopped=env.stopped, cleaned=env.cleaned))
+            return
         if free_at == k:
             if use_with and job.get("raise_in_with"):
                 # the with-block is left by an exception raised in the loop body
@@ -180,7 +208,8 @@ class C16(Spec):
         j = [dict(kind="run", K=K), dict(kind="step"), dict(kind="reject"), dict(kind="run", K=min(K, 4), enter_gap=True),
              dict(kind="run", K=3, enter_gap=True, free_at=3, with_block=True)]
         j += [dict(kind="run", K=K, free_at=f, with_block=(f % 2 == 0)) for f in (1, 2, K)]
-        j += [dict(kind="run", K=3, free_at=2, with_block=True, raise_in_with=True), dict(kind="eng")]
+        j += [dict(kind="run", K=3, free_at=2, with_block=True, raise_in_with=True), dict(kind="eng"),
+              dict(kind="run", K=3, free_at=2, free_while_blocked=True), dict(kind="run", K=2, free_at=1, free_while_blocked=True)]
         return j
 
     def bounds(self, tier):
@@ -188,7 +217,7 @@ class C16(Spec):
                     inductive_step="one wait() from any state with expiry = G + P")
 
     def reach_required(self, tier):
-        return ["wait", "freed", "inductive-step", "reject", "entered-late", "with-left-by-exception", "engineering-values"]
+        return ["wait", "freed", "inductive-step", "reject", "entered-late", "with-left-by-exception", "engineering-values", "freed-while-blocked"]
 
     def path_fn(self, c, job):
         path(c, job)
